@@ -18,7 +18,11 @@ RULE = (
     "digest attribute assignment), every candidate of that type's pool (valid, boundary, just outside the boundary, malformed, "
     "wrong kind, naive/aware/text/epoch timestamps, bytes for text, lone surrogates); 'hist' cases are seeded random histories of "
     "1-8 operations mixing kinds, fields and candidates; 'shadow' cases construct records whose field is named like a name the "
-    "generated __init__ could look up.  One evaluation = one operation executed by the real code.  Oracle after every operation: "
+    "generated __init__ could look up; 'alias' cases build 2-4 records of one descriptor that leave digest / T[] fields unset (by "
+    "constructor, kwargs, init_from_dict, _replace / init_from_record of a throw-away source, an equal descriptor) plus one with "
+    "explicit values, fill one record's field in place (digest setters; append / extend / insert of element-type values on the typed "
+    "list) and demand: that record changed as requested and is still typed and serialisable, the deep observation of every other "
+    "record is unchanged, defaulted slots of different records are different objects, a record built afterwards starts unset.  One evaluation = one operation executed by the real code.  Oracle after every operation: "
     "(1) outcome against the expectation the statement fixes (valid => accepted; out-of-range unsigned / boolean not 0,1 / "
     "malformed digest or address / non-bytes for bytes => raised; everything else open), (2) after a raised operation the deep "
     "observation of the record (observe.obs + packed digest bytes), taken before the operation, is unchanged, (3) after an "
@@ -36,7 +40,10 @@ ASSUMPTIONS = [
     "are exercised for the invariants only",
     "floats are not offered to integer types (uint16(3.7) yields a hybrid object today; the statement does not name it)",
     "nested-record fields receive records and None only (documented pass-through type); record[] elements are records",
-    "in-place mutation of a typed list (append) is not an attribute assignment and is not generated",
+    "in-place mutation of a typed list is not an attribute assignment: it is generated only in the 'alias' cases, with values that already are "
+    "of the element type, to observe that default objects are not shared between records",
+    "sharing is judged only for default objects the library creates; a _replace copy shares the values of its source record by design, so "
+    "_replace / init_from_record sources are throw-away records outside the observed set",
     "text with a lone surrogate outside U+DC80-DCFF is offered to string / wstring / uri (scalar and list), dynamic, _source and "
     "_classification only",
     "net.ipv4.Subnet (deprecated, no packed form) is left out",
@@ -75,6 +82,8 @@ CARRIER_OK = (int, str, bytes)
 SHADOW_NAMES = ["RECORD_VERSION", "Record", "args", "kwargs", "self", "cls", "k", "v", "f", "values", "RESERVED_FIELDS", "object", "setattr", "type", "print"]
 SHADOW_TYPES = ["string", "varint", "digest", "string[]", "datetime", "uint16"]
 KEY_SHADOW = "field-name-shadows-template-global"
+# field types whose unset form is a non-None default object created by the library (empty digest, empty typed list)
+ALIAS_TYPES = ["digest"] + [t + "[]" for t in gen.LIST_ELEM_TYPES]
 
 
 def setup(ctx):
@@ -98,6 +107,11 @@ def generate(ctx):
         for t in SHADOW_TYPES:
             if ctx.mine(idx):
                 yield {"k": "shadow", "name": name, "t": t}
+            idx += 1
+    for rep in range(ctx.scale(4, 40)):
+        for t in ALIAS_TYPES:
+            if ctx.mine(idx):
+                yield {"k": "alias", "t": t, "s": subseed("c05", ctx.seed, "alias", t, rep)}
             idx += 1
     for rep in range(ctx.scale(2, 12)):
         for t in cands.TYPES:
@@ -686,9 +700,157 @@ def run_suite(ctx, case):
         ctx.violation(None, "untyped slot after a record construction during the repository's own test-suite", detail=v)
 
 
+def run_alias(ctx, case):
+    """Several records of one descriptor leave a digest / T[] field unset; the default object the library puts there must be
+    the record's own: filling it in place through ONE record (digest setters, append / extend / insert on the typed list)
+    changes that record as requested and leaves the deep observation of every other record unchanged.  Only defaults the
+    library creates are judged: _replace / init_from_record sources are throw-away records outside the observed set (a
+    _replace copy shares the values of its source by design), and the one record built with explicit values gets its own."""
+    from flow.record import RecordDescriptor, RecordPacker
+
+    rng = random.Random(case["s"])
+    t = case["t"]
+    second = "digest" if t != "digest" else rng.choice([x for x in ALIAS_TYPES if x != "digest"])
+    fa, fb, fo = gen.unique_names(rng, 3, avoid=("zz_other", "zz_unknown", "self"))
+    fields = [(t, fa), (second, fb), ("string", fo)]
+    rng.shuffle(fields)
+    name = "c05/alias_" + gen.rand_ident(rng)
+    desc = RecordDescriptor(name, fields)
+    h = Hist(ctx, case, rng, t, fields=fields, descname=name)
+    h.focus = fa
+    info = {"case": case, "descriptor": [name, fields]}
+
+    def explicit(ftype):
+        c = rng.choice([c for c in h.pool(ftype) if c.exp == "accept" and c.kind not in ("empty", "none")])
+        return c.fresh()
+
+    routes = {
+        "ctor": lambda: desc(),
+        "ctor_kwargs": lambda: desc.recordType(**{fo: "x"}),
+        "from_dict": lambda: desc.init_from_dict({fo: "y", "zz_unknown": 1}),
+        "replace_of_throwaway": lambda: desc()._replace(**{fo: "z"}),
+        "from_record_of_throwaway": lambda: desc.init_from_record(RecordDescriptor("c05/alias_src", [("string", fo)])(**{fo: "w"})),
+        "equal_descriptor": lambda: RecordDescriptor(name, list(fields))(),
+    }
+    chosen = rng.sample(sorted(routes), rng.randint(2, 4))
+    recs = []
+    for r in chosen:
+        try:
+            recs.append((r, routes[r]()))
+        except Exception as e:  # noqa: BLE001
+            ctx.violation(None, "a record with unset fields could not be built (%s)" % r, detail=dict(info, exception=repr(e)[:300]))
+            return
+    try:
+        recs.append(("explicit_values", desc.recordType(**{fa: explicit(t), fb: explicit(second), fo: "e"})))
+    except Exception as e:  # noqa: BLE001
+        ctx.violation(None, "valid values rejected", detail=dict(info, exception=repr(e)[:300]))
+        return
+    for _, r in recs:
+        observe.assert_typed(r, "alias build")
+
+    # every defaulted slot holds an object of its own
+    unset = [(r, rec) for r, rec in recs if r != "explicit_values"]
+    for fname in (fa, fb):
+        objs = [(r, getattr(rec, fname)) for r, rec in unset]
+        for i in range(len(objs)):
+            for j in range(i + 1, len(objs)):
+                if objs[i][1] is None or objs[j][1] is None:
+                    continue
+                ctx.event("alias_identity_checked")
+                if objs[i][1] is objs[j][1]:
+                    ctx.violation("default-object-shared-between-records", "two records hold the very same default object in an unset field",
+                                  detail=dict(info, field=fname, records=[objs[i][0], objs[j][0]]))
+
+    nmut = rng.randint(1, 3)
+    for _ in range(nmut):
+        mi = rng.randrange(len(recs))
+        mroute, m = recs[mi]
+        fname = rng.choice([fa, fb])
+        ftype = h.type_of(fname)
+        holder = getattr(m, fname)
+        if holder is None:
+            ctx.event("alias_slot_is_none")  # no default object (keyword-field classes): nothing can be shared
+            continue
+        before = [snapshot(rec) for _, rec in recs]
+        want = None
+        try:
+            if ftype == "digest":
+                which = rng.choice(["md5", "sha1", "sha256"])
+                val = gen._hex(rng, {"md5": 16, "sha1": 20, "sha256": 32}[which])
+                what = "%s.%s = %r" % (fname, which, val)
+                setattr(holder, which, val)
+                o = observe.oval(holder)
+                want = list(before[mi][0][3][[k for k, _ in before[mi][0][3]].index(fname)][1] or ["digest", None, None, None])
+                want[{"md5": 1, "sha1": 2, "sha256": 3}[which]] = val.lower()
+            else:
+                elem_cls = type(holder).__type__
+                base_t = ftype[:-2]
+
+                def elem():
+                    v = explicit(base_t)
+                    return v if base_t == "record" or isinstance(v, elem_cls) else elem_cls(v)
+
+                how = rng.choice(["append", "extend", "insert"])
+                new = [elem() for _ in range(1 if how != "extend" else rng.randint(1, 3))]
+                what = "%s.%s(%s)" % (fname, how, ", ".join(_safe_repr(x)[:40] for x in new))
+                old_obs = [observe.oval(x) for x in holder]
+                if how == "append":
+                    holder.append(new[0])
+                    exp_list = old_obs + [observe.oval(new[0])]
+                elif how == "extend":
+                    holder.extend(new)
+                    exp_list = old_obs + [observe.oval(x) for x in new]
+                else:
+                    holder.insert(0, new[0])
+                    exp_list = [observe.oval(new[0])] + old_obs
+                want = ["list", ftype, exp_list]
+        except Exception as e:  # noqa: BLE001
+            ctx.violation(None, "in-place fill of a valid value raised", detail=dict(info, mutation=what, exception=repr(e)[:300]))
+            return
+        ctx.ev()
+        ctx.event("op:inplace_" + ("digest" if ftype == "digest" else "list"))
+        ctx.cell(ftype, "inplace", mroute)
+        ctx.nontrivial("alias", t, case["s"], what[:60])
+        after = [snapshot(rec) for _, rec in recs]
+        got = observe.slots_of(after[mi][0]).get(fname)
+        if got != want:
+            ctx.violation(None, "an in-place fill did not change the record as requested", detail=dict(info, mutation=what, route=mroute, expected=want, holds=got))
+        try:
+            observe.assert_typed(m, "after in-place fill")
+            RecordPacker().pack(m)
+            ctx.event("alias_mutated_typed_and_packed")
+        except Exception as e:  # noqa: BLE001
+            ctx.violation(None, "record no longer typed / serialisable after an in-place fill with a value of the element type",
+                          detail=dict(info, mutation=what, exception=repr(e)[:300]))
+        for i, (route, rec) in enumerate(recs):
+            if i == mi:
+                continue
+            ctx.event("alias_others_checked")
+            if after[i] != before[i]:
+                ctx.violation("default-object-shared-between-records", "filling a field of one record in place changed another record",
+                              detail=dict(info, mutation=what, mutated_record=mroute, changed_record=route, diff=observe.first_diff(before[i], after[i])))
+        # a record built after the fill starts unset again
+        try:
+            later = desc()
+        except Exception as e:  # noqa: BLE001
+            ctx.violation(None, "a record with unset fields could not be built", detail=dict(info, exception=repr(e)[:300]))
+            return
+        ctx.event("alias_later_checked")
+        for f2 in (fa, fb):
+            v = getattr(later, f2)
+            if not observe.is_unset(observe.oval(v)):
+                ctx.violation("default-object-shared-between-records", "a record built after an in-place fill of another record does not start unset",
+                              detail=dict(info, mutation=what, field=f2, holds=_safe_repr(v)))
+            elif v is not None and any(v is getattr(rec, f2) for _, rec in recs):
+                ctx.violation("default-object-shared-between-records", "a new record holds the very same default object as an existing one", detail=dict(info, field=f2))
+    ctx.sample({"case": case, "descriptor": [name, fields], "records": [r for r, _ in recs]}, kind="alias:" + ("digest" if t == "digest" else "list"))
+
+
 def execute(ctx, case):
     k = case["k"]
-    if k == "suite":
+    if k == "alias":
+        run_alias(ctx, case)
+    elif k == "suite":
         run_suite(ctx, case)
     elif k == "sweep":
         run_sweep(ctx, case)
@@ -713,5 +875,7 @@ def finish(ctx):
     ctx.require(ev.get("conv_checked_kind:naive", 0) > 0, "no naive timestamp conversion was observed")
     ctx.require(ev.get("conv_checked_kind:bytes-for-text", 0) > 0, "no bytes-to-text conversion was observed")
     ctx.require(ev.get("stamp_checked", 0) > 0, "the _version stamp check never ran")
+    ctx.require(ev.get("alias_others_checked", 0) > 0, "the shared-default monitor (other records unchanged after an in-place fill) never ran")
+    ctx.require(ev.get("alias_identity_checked", 0) > 0, "the default-object identity check never ran")
     for q in ("flow.record.base:Record.__setattr__", "flow.record.fieldtypes:typedlist._convert", "flow.record.packer:RecordPacker.pack_obj"):
         ctx.require(ctx.reach.get(q, 0) > 0, "anchor %s was never entered" % q)
